@@ -170,6 +170,8 @@ def run(tier):
             ("cov_rwrt", {"mode": "cover", "progs": PROGS["G_RWRT"], "runs": 250, "spur": 0, "eintr": 0, "weak": 0}),
             ("cov_wwrt", {"mode": "cover", "progs": PROGS["G_WWRT"], "runs": 250, "spur": 0, "eintr": 0, "weak": 0}),
             ("cov4", {"mode": "cover", "progs": [WAU + RAU, RAU + WAU, TWAU + RAU, RAU + TRAU], "runs": 300, "spur": 1, "eintr": 1, "weak": 1}),
+            ("hold_wrw", {"mode": "hold", "progs": [WAU, RAU, WAU], "spur": 0, "eintr": 0, "weak": 0, "max_steps": 200}),
+            ("hold_rww", {"mode": "hold", "progs": [RAU, WAU, TRAU + RAU], "spur": 0, "eintr": 0, "weak": 0, "max_steps": 200}),
             ("rnd4", {"progs": [WAU + RAU, RAU + WAU, TWAU + RAU, RAU + TRAU], "runs": 150, "spur": 1, "eintr": 1, "weak": 1}),
         ]
     else:
@@ -195,11 +197,13 @@ def run(tier):
             ("cov_rwrt", {"mode": "cover", "progs": PROGS["G_RWRT"], "runs": 2500, "spur": 1, "eintr": 0, "weak": 1}),
             ("cov_wwrt", {"mode": "cover", "progs": PROGS["G_WWRT"], "runs": 2500, "spur": 1, "eintr": 0, "weak": 1}),
             ("cov4", {"mode": "cover", "progs": [WAU + RAU, RAU + WAU, TWAU + RAU, RAU + TRAU], "runs": 3000, "spur": 1, "eintr": 1, "weak": 1}),
+            ("hold_wrw", {"mode": "hold", "progs": [WAU, RAU, WAU], "spur": 0, "eintr": 0, "weak": 0, "max_steps": 200}),
+            ("hold_rww", {"mode": "hold", "progs": [RAU, WAU, TRAU + RAU], "spur": 0, "eintr": 0, "weak": 0, "max_steps": 200}),
             ("rnd4", {"progs": [WAU + RAU, RAU + WAU, TWAU + RAU, RAU + TRAU], "runs": 3000, "spur": 1, "eintr": 1, "weak": 1}),
         ]
     stress = {"threads": 4, "sections": 1500} if tier == "quick" else {"threads": 8, "sections": 10000}
     rare = [("wwr", 3, "C_WWR", (0, 0, 0))] if tier == "quick" else []     # thorough tours the 3-thread graph wrt completely
-    rel = [(t, sp) for t, sp in specs if t in (("dfs_wr", "cov4") if tier == "quick" else ("dfs_wr", "dfs_wwr", "cov4"))]
+    rel = [(t, sp) for t, sp in specs if t in (("dfs_wr", "cov4", "hold_wrw") if tier == "quick" else ("dfs_wr", "dfs_wwr", "cov4", "hold_wrw"))]
     return LC.run(tier, tours, configs, configs_if_differs, specs, stress=stress, rare_tours=rare, release_specs=rel,
                   probe_scenarios=["rww_before", "rwr_before", "rww_after", "rwr_after"])
 
